@@ -285,8 +285,8 @@ def api_step():
     return st.one_of(
         st.fixed_dictionaries({"op": st.just("lganm_new"), "fx": st.integers(0, 3), "means": st.sampled_from([[0, 1], [-2, 2], [1, 1]]),
                                "variances": st.sampled_from([[0, 1], [0.5, 2], [1, 1]])}),
-        st.fixed_dictionaries({"op": st.just("lganm_sample"), "fx": st.sampled_from([0, 0, 1, 2, 2, 3]), "iv": st.integers(0, 10), "n": st.sampled_from([1, 3, 10, 10, 3, 70001])}),
-        st.fixed_dictionaries({"op": st.just("normal_sample"), "fx": st.integers(0, 3), "n": st.sampled_from([1, 3, 10, 3, 10, 131072])}),
+        st.fixed_dictionaries({"op": st.just("lganm_sample"), "fx": st.sampled_from([0, 0, 1, 2, 2, 3]), "iv": st.integers(0, 10), "n": st.sampled_from([1, 3, 10, 10, 3, 70001] + [1, 3, 10] * 6 + [1048577])}),
+        st.fixed_dictionaries({"op": st.just("normal_sample"), "fx": st.integers(0, 3), "n": st.sampled_from([1, 3, 10, 3, 10, 131072] + [1, 3, 10] * 6 + [1048577])}),
         st.fixed_dictionaries({"op": st.just("anm_sample"), "fx": st.integers(0, 2), "iv": st.integers(0, 5), "n": st.sampled_from([1, 3, 10, 3, 10, 1, 66000])}),
         st.fixed_dictionaries({"op": st.just("dag_avg_deg"), "p": st.integers(2, 7), "k": st.sampled_from([0, 1, 1.5, 2]), "w": W_RANGES,
                                "ro": st.booleans()}).map(lambda d: {**d, "k": min(d["k"], d["p"] - 1)}),
